@@ -293,7 +293,10 @@ func runC16(c *h.Ctx) {
 			r, _ := ed25519.UnblindPublicKeyWithContext(w("pub", edBlinded), w("blind", edBlind), w("ctx", edCtx))
 			return r
 		}},
-		{"ed25519.UnblindPublicKey", true, func(w wrapFn) []byte { r, _ := ed25519.UnblindPublicKey(w("pub", edBlinded), w("blind", edBlind)); return r }},
+		{"ed25519.UnblindPublicKey", true, func(w wrapFn) []byte {
+			r, _ := ed25519.UnblindPublicKey(w("pub", edBlinded), w("blind", edBlind))
+			return r
+		}},
 		// blinds of other lengths than 32 bytes (the blinding functions take any byte string as blind key)
 		{"ed25519.BlindPublicKeyWithContext(blind of 31 bytes)", true, func(w wrapFn) []byte {
 			r, err := ed25519.BlindPublicKeyWithContext(w("pub", edPub), w("blind", edBlind[:31]), w("ctx", edCtx))
@@ -341,7 +344,9 @@ func runC16(c *h.Ctx) {
 		{"ed25519.BlindKeySignWithContext", true, func(w wrapFn) []byte {
 			return ed25519.BlindKeySignWithContext(w("priv", edPriv), w("msg", msg), w("blind", edBlind), w("ctx", edCtx))
 		}},
-		{"ed25519.BlindKeySign", true, func(w wrapFn) []byte { return ed25519.BlindKeySign(w("priv", edPriv), w("msg", msg), w("blind", edBlind)) }},
+		{"ed25519.BlindKeySign", true, func(w wrapFn) []byte {
+			return ed25519.BlindKeySign(w("priv", edPriv), w("msg", msg), w("blind", edBlind))
+		}},
 		{"ecdsa.CreateKey", true, func(w wrapFn) []byte {
 			k, _ := ecdsa.CreateKey(curve, w("key", blind3))
 			return cat(k.D.Bytes(), k.X.Bytes(), k.Y.Bytes())
@@ -370,7 +375,9 @@ func runC16(c *h.Ctx) {
 			}
 			return flagB(ok)
 		}},
-		{"ecdsa.VerifyASN1", true, func(w wrapFn) []byte { return flagB(ecdsa.VerifyASN1(&ecSk.PublicKey, w("hash", digest), w("sig", ecSigA))) }},
+		{"ecdsa.VerifyASN1", true, func(w wrapFn) []byte {
+			return flagB(ecdsa.VerifyASN1(&ecSk.PublicKey, w("hash", digest), w("sig", ecSigA)))
+		}},
 		{"ecdsa.Sign", false, func(w wrapFn) []byte {
 			snap := bigSnap(ecSk.D, ecSk.X, ecSk.Y)
 			_, _, err := ecdsa.Sign(crand.Reader, ecSk, w("hash", digest))
@@ -379,7 +386,10 @@ func runC16(c *h.Ctx) {
 			}
 			return okErr(err)
 		}},
-		{"ecdsa.SignASN1", false, func(w wrapFn) []byte { _, err := ecdsa.SignASN1(crand.Reader, ecSk, w("hash", digest)); return okErr(err) }},
+		{"ecdsa.SignASN1", false, func(w wrapFn) []byte {
+			_, err := ecdsa.SignASN1(crand.Reader, ecSk, w("hash", digest))
+			return okErr(err)
+		}},
 		{"ecdsa.BlindKeySignWithContext", false, func(w wrapFn) []byte {
 			snap := bigSnap(ecSk.D, ecSk.X, ecSk.Y, ecBk.D)
 			_, _, err := ecdsa.BlindKeySignWithContext(crand.Reader, ecSk, ecBk, w("hash", digest), w("ctx", edCtx))
@@ -571,17 +581,35 @@ func runC16(c *h.Ctx) {
 		enc  []byte
 		dec  func([]byte) []byte
 	}{
-		{"type1.Request", req1Enc, func(d []byte) []byte { r := new(type1.BasicPrivateTokenRequest); return verdict(r.Unmarshal(d), r.Marshal) }},
-		{"type2.Request", req2Enc, func(d []byte) []byte { r := new(type2.BasicPublicTokenRequest); return verdict(r.Unmarshal(d), r.Marshal) }},
-		{"type3.Request", req3Enc, func(d []byte) []byte { r := new(type3.RateLimitedTokenRequest); return verdict(r.Unmarshal(d), r.Marshal) }},
-		{"type5.Request", req5Enc, func(d []byte) []byte { r := new(type5.BatchedPrivateTokenRequest); return verdict(r.Unmarshal(d), r.Marshal) }},
-		{"batched.Request", brEnc, func(d []byte) []byte { r := new(batched.BatchedTokenRequest); return verdict(r.Unmarshal(d), r.Marshal) }},
+		{"type1.Request", req1Enc, func(d []byte) []byte {
+			r := new(type1.BasicPrivateTokenRequest)
+			return verdict(r.Unmarshal(d), r.Marshal)
+		}},
+		{"type2.Request", req2Enc, func(d []byte) []byte {
+			r := new(type2.BasicPublicTokenRequest)
+			return verdict(r.Unmarshal(d), r.Marshal)
+		}},
+		{"type3.Request", req3Enc, func(d []byte) []byte {
+			r := new(type3.RateLimitedTokenRequest)
+			return verdict(r.Unmarshal(d), r.Marshal)
+		}},
+		{"type5.Request", req5Enc, func(d []byte) []byte {
+			r := new(type5.BatchedPrivateTokenRequest)
+			return verdict(r.Unmarshal(d), r.Marshal)
+		}},
+		{"batched.Request", brEnc, func(d []byte) []byte {
+			r := new(batched.BatchedTokenRequest)
+			return verdict(r.Unmarshal(d), r.Marshal)
+		}},
 		{"batched.Responses", bresp, func(d []byte) []byte {
 			l, err := batched.UnmarshalBatchedTokenResponses(d)
 			return verdict(err == nil, func() []byte { return cat(l...) })
 		}},
 		{"type1.Token", tok1Enc, func(d []byte) []byte { t, err := type1.UnmarshalPrivateToken(d); return verdict(err == nil, t.Marshal) }},
-		{"tokens.TokenChallenge", tcEnc, func(d []byte) []byte { t, err := tokens.UnmarshalTokenChallenge(d); return verdict(err == nil, t.Marshal) }},
+		{"tokens.TokenChallenge", tcEnc, func(d []byte) []byte {
+			t, err := tokens.UnmarshalTokenChallenge(d)
+			return verdict(err == nil, t.Marshal)
+		}},
 		{"type3.EncapKey", encapEnc, func(d []byte) []byte {
 			k, err := type3.UnmarshalEncapKey(d)
 			return verdict(err == nil, func() []byte { return k.Marshal() })
@@ -612,7 +640,9 @@ func runC16(c *h.Ctx) {
 		snap []byte
 	}
 	var helds []held
-	hold := func(name string, live func() []byte) { helds = append(helds, held{name, live, append([]byte{}, live()...)}) }
+	hold := func(name string, live func() []byte) {
+		helds = append(helds, held{name, live, append([]byte{}, live()...)})
+	}
 	r3 := st3.Request()
 	hold("type3 request encoding", func() []byte { return st3.Request().Marshal() })
 	hold("type3 request ciphertext", func() []byte { return r3.EncryptedTokenRequest })
